@@ -487,6 +487,18 @@ func init() {
 				run(v, true, "reviewed-vendor")
 				n := v ^ (1 << uint(c.R.Intn(32)))
 				run(n, isReviewed[n], "neighbour")
+				// the id with its padding spelt the other way (NUL for space, space for NUL), in each byte position, and lower-cased letters:
+				// a different 32-bit id, registered only if the table says so
+				for pos := 0; pos < 4; pos++ {
+					b := byte(v >> uint(8*pos))
+					for _, alt := range []byte{0x00, 0x20, b ^ 0x20} {
+						if alt == b {
+							continue
+						}
+						m := v&^(0xFF<<uint(8*pos)) | uint32(alt)<<uint(8*pos)
+						run(m, isReviewed[m], "padding-or-case-variant")
+					}
+				}
 			}
 		}},
 		Stream{"keyDesc.goStyle", func(c *Ctx) {
